@@ -338,6 +338,13 @@ func (s *State) catFactsGuarded(guard, r, a, b string) {
 	s.strBasics(a)
 	s.strBasics(b)
 	s.strBasics(r)
+	if s.c.strOrder {
+		s.declOrder()
+		s.assume(implies(bothWf, eq(app("nsx", r), app("cat", app("nsx", a), app("nsx", b)))))
+		s.nsxBasics(a)
+		s.nsxBasics(b)
+		s.nsxBasics(r)
+	}
 	if s.c.useLines {
 		s.assume(implies(bothWf, and(
 			eq(app("fstl", r), ite(eq(app("nl", a), "0"), app("+", app("vlen", a), app("fstl", b)), app("fstl", a))),
@@ -369,6 +376,10 @@ func (s *State) cellFacts(b, T string) []string {
 				implies(eq(c1, "emp"), eq(c0, c2)))))),
 	}
 	s.declIsSpace()
+	if s.c.strOrder {
+		s.declOrder()
+		fs = append(fs, implies(app("wf", T), eq(app("nsx", c0), ite(eq(app("nsc", c0), "1"), c0, "emp"))))
+	}
 	// styledBy(x, st): the specification of ansi.Apply -- x with the attribute st added to every visible cell and
 	// nothing else changed: a homomorphism on cell-language strings, defined cell by cell
 	sv := fmt.Sprintf("s!%d", s.c.fresh)
